@@ -3,6 +3,7 @@ import LZ4V.Judge.Block
 import LZ4V.Judge.Decode
 import LZ4V.Judge.Frame
 import LZ4V.Judge.Stream
+import LZ4V.Judge.Cli
 import Std.Data.HashMap
 /-!
 `lz4vmodel judge <casefile> <faildir>` : walk the case records written by a harness, run the specification / model
@@ -19,6 +20,8 @@ def dispatch (blobs : Std.HashMap Nat ByteArray) (r : Rec) : Verdict :=
   | 4 => judgeFrameDec blobs r
   | 5 => judgeGenFunc r
   | 6 => judgeStreamBlock r
+  | 7 => judgeCliArchive r
+  | 8 => judgeCliDecode r
   | 100 => {}
   | _ => { fails := [("unknown_op", s!"op={r.op}")] }
 
